@@ -75,4 +75,52 @@ Section GroupAvg.
       { apply not_0_INR. destruct ops; [congruence | simpl; discriminate]. }
       rewrite Rinv_l by exact Hn. apply vscale_one.
   Qed.
+
+  (** The average is idempotent ... *)
+  Theorem avg_idem v : avg (avg v) = avg v.
+  Proof. apply avg_fixed_iff. intros g Hg. apply h_avg. exact Hg. Qed.
+
+  (** ... and, when the operators are isometries and the list is closed under inverses (as operators), self-adjoint:
+      the average is the ORTHOGONAL projector onto the common fixed vectors. *)
+  Hypothesis ops_iso : forall g, In g ops -> forall x y, ip (g x) (g y) = ip x y.
+  Hypothesis inv_closed : exists l', Permutation l' ops /\ Forall2 (fun a b => forall v : W, a (b v) = v) ops l'.
+
+  Lemma adj_sum (l l' : list (W -> W)) x y :
+    (forall g, In g l -> forall a b, ip (g a) (g b) = ip a b) ->
+    Forall2 (fun a b => forall v : W, a (b v) = v) l l' ->
+    rsum (map (fun g => ip (g x) y) l) = rsum (map (fun g => ip x (g y)) l').
+  Proof.
+    intros Hiso H. induction H as [|a b l l' Hab H IH]; simpl; [reflexivity|].
+    rewrite IH by (intros g Hg; apply Hiso; right; exact Hg).
+    f_equal. rewrite <- (Hab y) at 1. apply Hiso. left. reflexivity.
+  Qed.
+
+  Theorem avg_sym x y : ip (avg x) y = ip x (avg y).
+  Proof.
+    unfold avg. rewrite ip_scale_l, ip_scale_r. f_equal.
+    rewrite ip_vsum, (ip_sym x), ip_vsum, !map_map.
+    destruct inv_closed as [l' [Hp Hf]].
+    rewrite (adj_sum ops l' x y ops_iso Hf).
+    rewrite (rsum_perm _ _ (Permutation_map (fun g => ip x (g y)) Hp)).
+    apply rsum_map_ext. intros g _. apply ip_sym.
+  Qed.
 End GroupAvg.
+
+(** The two steps of C02 together: the unit eigenvectors of C^T P C, with P the average of a list of isometries closed under
+    products and inverses, are exactly the y whose expansion C y is fixed by every operator of the list. *)
+Theorem compressed_unit_eigs_are_invariants (U W : IPS) (Cm : U -> W) (Ct : W -> U) (ops : list (W -> W)) :
+  (forall x y, ip (Cm x) (Cm y) = ip x y) -> (forall x w, ip (Cm x) w = ip x (Ct w)) ->
+  (forall g, In g ops -> forall x y, g (vadd x y) = vadd (g x) (g y)) ->
+  (forall g, In g ops -> forall a x, g (vscale a x) = vscale a (g x)) ->
+  ops <> [] ->
+  (forall h, In h ops -> exists l', Permutation l' ops /\
+      Forall2 (fun a b => forall v : W, a v = b v) (map (fun g v => h (g v)) ops) l') ->
+  (forall g, In g ops -> forall x y, ip (g x) (g y) = ip x y) ->
+  (exists l', Permutation l' ops /\ Forall2 (fun a b => forall v : W, a (b v) = v) ops l') ->
+  forall y, Ct (avg W ops (Cm y)) = y <-> forall g, In g ops -> g (Cm y) = Cm y.
+Proof.
+  intros Ciso Cadj Hadd Hsc Hne Hcl Hiso Hinv y.
+  rewrite (unit_eig_of_compression U W Cm Ct (avg W ops) Ciso Cadj
+             (avg_sym W ops Hiso Hinv) (avg_idem W ops Hadd Hsc Hne Hcl)).
+  apply (avg_fixed_iff W ops Hadd Hsc Hne Hcl).
+Qed.
